@@ -59,9 +59,10 @@ type snapJ struct {
 	Diffs   []string  `json:"diffs,omitempty"` // the code's own node resource check (informational)
 }
 type msgJ struct {
-	Node string `json:"node"`
-	ID   int    `json:"id"`
-	OK   bool   `json:"ok"`
+	Node string    `json:"node"`
+	ID   int       `json:"id"`
+	OK   bool      `json:"ok"`
+	Res  *ckit.Res `json:"res"` // the resources a create success reports
 }
 type trJ struct {
 	Kind     string `json:"kind"`
@@ -553,7 +554,8 @@ func (w *world) analyse(o op, out *outcome, pre snapJ, ifault *ckit.Addr) (args 
 		}
 		for _, m := range out.createMsgs {
 			if m.Error == nil {
-				out.msgs = append(out.msgs, msgJ{Node: m.Nodename, ID: w.idOf(m.WorkloadID), OK: true})
+				rr := ckit.WorkloadRes(m.Resources)
+				out.msgs = append(out.msgs, msgJ{Node: m.Nodename, ID: w.idOf(m.WorkloadID), OK: true, Res: &rr})
 			} else {
 				out.msgs = append(out.msgs, msgJ{Node: m.Nodename, ID: 0, OK: false})
 			}
